@@ -26,6 +26,7 @@ type Opts struct {
 	StepCap      uint64 // model's own cap on evaluations (0 = 3e6): beyond it the case is skipped
 	MaxEvents    int    // cap on recorded events (0 = 100000), same meaning as mon.Trace.Max
 	DetectReentry bool  // abort when a rule is re-entered at an offset where it is active
+	LR            bool  // left recursion supported: left-recursive rules denote the left-associative iteration
 }
 
 // ErrRec is one predicted element of the error list.
@@ -89,6 +90,8 @@ type Result struct {
 	RecInHandler   int // recovery operators entered while a recovery expression was running
 	ThrowUnhandled int
 	SiblingRec     int // recovery operators entered after another one at the same nesting depth was left
+	LRGrowths      int // successful growth steps of left-recursive rules
+	LRSeedUses     int
 }
 
 type state struct {
@@ -153,6 +156,18 @@ type interp struct {
 	inHandler int
 	recDepth  int
 	recLeft   map[int]bool
+	// left recursion
+	lrRules map[string]bool
+	seeds   map[string]*seed
+	growing map[int][]string
+	an      *gast.Analysis
+}
+
+type seed struct {
+	ok  bool
+	end int
+	val any
+	st  *state
 }
 
 // Run evaluates the grammar on the input under the options.
@@ -165,6 +180,12 @@ func Run(g *gast.Grammar, in []byte, o Opts) (res *Result) {
 		it.o.MaxEvents = 100000
 	}
 	it.positions()
+	if o.LR {
+		it.an = gast.Analyze(g)
+		it.lrRules = it.an.LeftRecursive()
+		it.seeds = map[string]*seed{}
+		it.growing = map[int][]string{}
+	}
 	res = it.res
 	start := g.Rules[0]
 	if o.Entry != "" {
@@ -390,7 +411,55 @@ func (it *interp) evalRule(r *gast.Rule, pos int, st *state, h *handler, inv boo
 		it.active[key] = true
 		defer delete(it.active, key)
 	}
+	if it.lrRules[r.Name] {
+		return it.evalLR(r, pos, st, h, inv)
+	}
 	return it.eval(r.Expr, pos, st, frame{}, h, r, inv)
+}
+
+// evalLR gives a left-recursive rule the meaning the property states: the non-recursive
+// alternatives produce a first result; then, as long as the match gets longer, the body is
+// evaluated again with the recursive reference standing for the result so far (so the value is
+// left-nested); errors and state changes of the final, non-extending attempt are dropped. The
+// first rule of a cycle that is entered at an offset heads the iteration; the other rules of the
+// cycle are evaluated plainly while it runs.
+func (it *interp) evalLR(r *gast.Rule, pos int, st *state, h *handler, inv bool) (bool, int, any, *state) {
+	key := r.Name + "@" + strconv.Itoa(pos)
+	if sd, ok := it.seeds[key]; ok {
+		it.res.LRSeedUses++
+		if !sd.ok {
+			return false, pos, nil, st
+		}
+		return true, sd.end, sd.val, sd.st
+	}
+	for _, head := range it.growing[pos] {
+		if it.an.SameCycle(head, r.Name) {
+			// a non-heading member of the cycle that is being iterated at this offset
+			return it.eval(r.Expr, pos, st, frame{}, h, r, inv)
+		}
+	}
+	it.growing[pos] = append(it.growing[pos], r.Name)
+	cur := &seed{ok: false, end: pos, st: st}
+	nerr := len(it.errs)
+	for depth := 0; ; depth++ {
+		it.seeds[key] = cur
+		ok, end, v, nst := it.eval(r.Expr, pos, st, frame{}, h, r, inv)
+		if !ok || (end <= cur.end && depth != 0) {
+			it.errs = it.errs[:nerr] // the non-extending attempt leaves no errors behind
+			break
+		}
+		cur = &seed{ok: true, end: end, val: v, st: nst}
+		nerr = len(it.errs)
+		it.res.LRGrowths++
+	}
+	it.growing[pos] = it.growing[pos][:len(it.growing[pos])-1]
+	// a later reference at the same offset is evaluated afresh (pure semantics: same match, its
+	// blocks run again, its errors are reported again and de-duplicated)
+	delete(it.seeds, key)
+	if !cur.ok {
+		return false, pos, nil, st
+	}
+	return true, cur.end, cur.val, cur.st
 }
 
 // eval is the big-step relation: (ok, end, value, state'). On failure end==pos and state'==st.
